@@ -201,6 +201,11 @@ class _Norm:
                 e = n.right
             if isinstance(e, ast.Name) and e.id not in ("LOCAL", "REMOTE") and e.id not in self.alias:
                 cand.append(e.id)
+        # the base of a recognised side is a side too (`synced` is other(`changed`): a function that only passes `changed` on still has it as a side)
+        for nm in list(cand):
+            sd = self.sa.side_expr(f, ast.Name(id=nm, ctx=ast.Load()))
+            if sd is not None and not sd[0].startswith("#") and sd[0] in f.all_param_names() and sd[0] not in cand:
+                cand.append(sd[0])
         self.side_names = set(cand)
         params = [p for p in f.all_param_names()]
         bases: List[str] = []
